@@ -2556,8 +2556,8 @@ impl CommandParser {
         let mut score_members = Vec::new();
         let mut i = 2;
         while i < frames.len() {
-            let score = Self::extract_string(&frames[i])?.parse::<f64>()
-                .map_err(|_| FerrousError::Command(CommandError::InvalidFloatValue))?;
+            let score = Self::extract_string(&frames[i])?.parse::<f64>().ok().filter(|n| !n.is_nan())
+                .ok_or(FerrousError::Command(CommandError::InvalidFloatValue))?;
             let member = Self::extract_bytes(&frames[i + 1])?;
             score_members.push((score, member));
             i += 2;
@@ -2656,10 +2656,10 @@ impl CommandParser {
         if frames.len() < 4 || frames.len() > 5 {
             return Err(FerrousError::Command(CommandError::WrongNumberOfArguments("ZRANGEBYSCORE".into())));
         }
-        let min_score = Self::extract_string(&frames[2])?.parse::<f64>()
-            .map_err(|_| FerrousError::Command(CommandError::InvalidFloatValue))?;
-        let max_score = Self::extract_string(&frames[3])?.parse::<f64>()
-            .map_err(|_| FerrousError::Command(CommandError::InvalidFloatValue))?;
+        let min_score = Self::extract_string(&frames[2])?.parse::<f64>().ok().filter(|n| !n.is_nan())
+            .ok_or(FerrousError::Command(CommandError::InvalidFloatValue))?;
+        let max_score = Self::extract_string(&frames[3])?.parse::<f64>().ok().filter(|n| !n.is_nan())
+            .ok_or(FerrousError::Command(CommandError::InvalidFloatValue))?;
         let with_scores = frames.len() == 5 && 
             Self::extract_string(&frames[4])?.to_uppercase() == "WITHSCORES";
         Ok(SortedSetCommand::ZRangeByScore {
@@ -2674,10 +2674,10 @@ impl CommandParser {
         if frames.len() != 4 {
             return Err(FerrousError::Command(CommandError::WrongNumberOfArguments("ZCOUNT".into())));
         }
-        let min_score = Self::extract_string(&frames[2])?.parse::<f64>()
-            .map_err(|_| FerrousError::Command(CommandError::InvalidFloatValue))?;
-        let max_score = Self::extract_string(&frames[3])?.parse::<f64>()
-            .map_err(|_| FerrousError::Command(CommandError::InvalidFloatValue))?;
+        let min_score = Self::extract_string(&frames[2])?.parse::<f64>().ok().filter(|n| !n.is_nan())
+            .ok_or(FerrousError::Command(CommandError::InvalidFloatValue))?;
+        let max_score = Self::extract_string(&frames[3])?.parse::<f64>().ok().filter(|n| !n.is_nan())
+            .ok_or(FerrousError::Command(CommandError::InvalidFloatValue))?;
         Ok(SortedSetCommand::ZCount {
             key: Self::extract_bytes(&frames[1])?,
             min_score,
@@ -2689,8 +2689,8 @@ impl CommandParser {
         if frames.len() != 4 {
             return Err(FerrousError::Command(CommandError::WrongNumberOfArguments("ZINCRBY".into())));
         }
-        let increment = Self::extract_string(&frames[2])?.parse::<f64>()
-            .map_err(|_| FerrousError::Command(CommandError::InvalidFloatValue))?;
+        let increment = Self::extract_string(&frames[2])?.parse::<f64>().ok().filter(|n| !n.is_nan())
+            .ok_or(FerrousError::Command(CommandError::InvalidFloatValue))?;
         Ok(SortedSetCommand::ZIncrBy {
             key: Self::extract_bytes(&frames[1])?,
             increment,
@@ -2789,10 +2789,10 @@ impl CommandParser {
         if frames.len() < 4 || frames.len() > 5 {
             return Err(FerrousError::Command(CommandError::WrongNumberOfArguments("ZREVRANGEBYSCORE".into())));
         }
-        let max_score = Self::extract_string(&frames[2])?.parse::<f64>()
-            .map_err(|_| FerrousError::Command(CommandError::InvalidFloatValue))?;
-        let min_score = Self::extract_string(&frames[3])?.parse::<f64>()
-            .map_err(|_| FerrousError::Command(CommandError::InvalidFloatValue))?;
+        let max_score = Self::extract_string(&frames[2])?.parse::<f64>().ok().filter(|n| !n.is_nan())
+            .ok_or(FerrousError::Command(CommandError::InvalidFloatValue))?;
+        let min_score = Self::extract_string(&frames[3])?.parse::<f64>().ok().filter(|n| !n.is_nan())
+            .ok_or(FerrousError::Command(CommandError::InvalidFloatValue))?;
         let with_scores = frames.len() == 5 && 
             Self::extract_string(&frames[4])?.to_uppercase() == "WITHSCORES";
         Ok(SortedSetCommand::ZRevRangeByScore {
@@ -2854,10 +2854,10 @@ impl CommandParser {
         if frames.len() != 4 {
             return Err(FerrousError::Command(CommandError::WrongNumberOfArguments("ZREMRANGEBYSCORE".into())));
         }
-        let min_score = Self::extract_string(&frames[2])?.parse::<f64>()
-            .map_err(|_| FerrousError::Command(CommandError::InvalidFloatValue))?;
-        let max_score = Self::extract_string(&frames[3])?.parse::<f64>()
-            .map_err(|_| FerrousError::Command(CommandError::InvalidFloatValue))?;
+        let min_score = Self::extract_string(&frames[2])?.parse::<f64>().ok().filter(|n| !n.is_nan())
+            .ok_or(FerrousError::Command(CommandError::InvalidFloatValue))?;
+        let max_score = Self::extract_string(&frames[3])?.parse::<f64>().ok().filter(|n| !n.is_nan())
+            .ok_or(FerrousError::Command(CommandError::InvalidFloatValue))?;
         Ok(SortedSetCommand::ZRemRangeByScore {
             key: Self::extract_bytes(&frames[1])?,
             min_score,
